@@ -1,19 +1,125 @@
 package main
 
 import (
+	"flag"
 	"fmt"
-	"golang.org/x/tools/go/packages"
+	"os"
+	"regexp"
+	"runtime/debug"
+	"sort"
+	"strings"
+	"sync"
+	"time"
+
 	"golang.org/x/tools/go/ssa"
-	"golang.org/x/tools/go/ssa/ssautil"
+
+	"slipvc/vc"
 )
 
 func main() {
-	cfg := &packages.Config{Mode: packages.LoadAllSyntax, Dir: "/repo", BuildFlags: []string{"-tags", "verif"}}
-	pkgs, err := packages.Load(cfg, "github.com/ohler55/slip", "github.com/ohler55/slip/pkg/cl")
-	if err != nil {
-		panic(err)
+	if len(os.Args) < 2 {
+		fmt.Println("usage: slipvc <cmd> ...")
+		os.Exit(2)
 	}
-	prog, spkgs := ssautil.AllPackages(pkgs, ssa.InstantiateGenerics)
-	prog.Build()
-	fmt.Println(len(spkgs))
+	switch os.Args[1] {
+	case "sweep":
+		sweepCmd(os.Args[2:])
+	case "check":
+		checkCmd(os.Args[2:])
+	default:
+		fmt.Println("unknown command", os.Args[1])
+		os.Exit(2)
+	}
 }
+
+func pkgPatterns(list string) []string {
+	var out []string
+	for _, p := range strings.Split(list, ",") {
+		if p == "" {
+			continue
+		}
+		if p == "slip" {
+			out = append(out, vc.ModPath)
+		} else {
+			out = append(out, vc.ModPath+"/pkg/"+p)
+		}
+	}
+	return out
+}
+
+// sweepCmd: ad-hoc driver used during development.
+func sweepCmd(args []string) {
+	fs := flag.NewFlagSet("sweep", flag.ExitOnError)
+	pkgs := fs.String("pkgs", "slip,cl", "packages")
+	match := fs.String("match", `\.Call$`, "regexp on function names")
+	verbose := fs.Bool("v", false, "print every obligation")
+	dump := fs.String("dump", "", "dump scripts of failed obligations to dir")
+	timeout := fs.Int("t", 2000, "per-goal timeout ms")
+	workers := fs.Int("j", 16, "workers")
+	inl := fs.Int("inline", 3, "inline depth")
+	fs.Parse(args)
+	t0 := time.Now()
+	p, err := vc.Load("/repo", pkgPatterns(*pkgs)...)
+	if err != nil {
+		fmt.Println("load:", err)
+		os.Exit(2)
+	}
+	fmt.Printf("loaded in %.1fs, %d functions\n", time.Since(t0).Seconds(), len(p.Funcs))
+	re := regexp.MustCompile(*match)
+	var names []string
+	for n := range p.Funcs {
+		if re.MatchString(n) {
+			names = append(names, n)
+		}
+	}
+	sort.Strings(names)
+	opt := vc.Options{Safety: true, InlineDepth: *inl, InlineSize: 120}
+	so := &vc.SolveOpts{TimeoutMs: *timeout, RaceTimeout: 10 * time.Second, Models: true}
+	results := make([]*vc.FuncResult, len(names))
+	var wg sync.WaitGroup
+	sem := make(chan struct{}, *workers)
+	for i, n := range names {
+		wg.Add(1)
+		sem <- struct{}{}
+		go func(i int, fn *ssa.Function) {
+			defer wg.Done()
+			defer func() { <-sem }()
+			defer func() {
+				if r := recover(); r != nil {
+					results[i] = &vc.FuncResult{Fn: vc.FuncName(fn), Err: fmt.Sprint("engine panic: ", r, "\n", string(debug.Stack()))}
+				}
+			}()
+			results[i] = vc.VerifyFunc(p, fn, opt, so)
+		}(i, p.Funcs[n])
+	}
+	wg.Wait()
+	tot, ok, failed, unk, errs := 0, 0, 0, 0, 0
+	for _, r := range results {
+		if r.Err != "" {
+			errs++
+			fmt.Printf("ERR %s: %s\n", r.Fn, r.Err)
+			continue
+		}
+		for _, o := range r.Obls {
+			tot++
+			switch o.Status {
+			case "discharged":
+				ok++
+			case "failed":
+				failed++
+			default:
+				unk++
+			}
+			if *verbose || o.Status != "discharged" {
+				fmt.Printf("%-10s %s  [%s] %s\n", o.Status, o.Name, o.Pos, strings.ReplaceAll(o.Model, "\n", " "))
+				if *dump != "" && o.Status != "discharged" {
+					vc.DumpScript(*dump, o.Name, vc.Standalone(r.Lines, o, true, ""))
+				}
+			}
+		}
+	}
+	fmt.Printf("functions=%d errors=%d obligations=%d discharged=%d failed=%d unknown=%d wall=%.1fs\n",
+		len(results), errs, tot, ok, failed, unk, time.Since(t0).Seconds())
+}
+
+func checkCmd(args []string) {}
